@@ -1,6 +1,6 @@
 //! C02 — equality and hashing depend only on content, for every sequence type
 //! and every slice offset.
-use crate::oracle::{self, bits_at, mask128};
+use crate::oracle::{self, bits_at, mask128, sym};
 use crate::pre::*;
 use crate::vx::*;
 use crate::{harnesses, reach};
@@ -200,7 +200,53 @@ macro_rules! eq_owned {
     }};
 }
 
+/// sequence == displayed text: true exactly when lengths agree and every byte parses to the symbol at its position
+macro_rules! eq_str {
+    ($A:ty, $al:expr, $N:expr, $maxn:expr) => {{
+        let b = <$A as Codec>::BITS as usize;
+        let w = any_words::<2>();
+        let s = arr::<$A, { $N }, 2>(w);
+        let (o, n, m) = (any_usize(), any_usize(), any_usize());
+        assume(n <= $maxn && m <= $maxn && o <= $N - $maxn);
+        let win = &s[o..o + n];
+        let bytes = any_bytes::<{ $maxn }>();
+        let mut k = 0;
+        while k < $maxn {
+            assume(bytes[k] < 0x80);
+            k += 1;
+        }
+        let txt: &str = unsafe { core::str::from_utf8_unchecked(&bytes[..m]) };
+        let mut want = n == m;
+        let mut i = 0;
+        while i < $maxn {
+            if i < n && i < m {
+                let code = $al.from_bits[sym(&w, o * b, b, i) as usize];
+                want = want && $al.from_char[bytes[i] as usize] == code;
+            }
+            i += 1;
+        }
+        reach!(want && n == $maxn, "equal, full length");
+        reach!(!want && n == m && n > 0, "same length, different");
+        assert!((*win == txt) == want, "C02.eq.slice_vs_str");
+    }};
+}
+
 harnesses! {
+    fn c02_q_kmer_eq_str_dna_k2 [6] {
+        // Kmer == &str goes through Display (text formatting)
+        let v = any_usize();
+        assume(v < 16);
+        let k = kmer::<Dna, 2>(v);
+        let bytes = any_bytes::<2>();
+        assume(bytes[0] < 0x80 && bytes[1] < 0x80);
+        let txt: &str = unsafe { core::str::from_utf8_unchecked(&bytes) };
+        let want = oracle::DNA.from_char[bytes[0] as usize] == (v & 3) as i16 && oracle::DNA.from_char[bytes[1] as usize] == ((v >> 2) & 3) as i16;
+        reach!(want, "equal");
+        assert!((k == txt) == want, "C02.eq.kmer_vs_str");
+    }
+    fn c02_q_eq_str_dna [5] { eq_str!(Dna, oracle::DNA, 64, 3) }
+    fn c02_q_eq_str_amino [5] { eq_str!(Amino, oracle::AMINO, 21, 2) }
+    fn c02_t_eq_str_iupac [5] { eq_str!(Iupac, oracle::IUPAC, 32, 3) }
     fn c02_q_eq_sym_dna [4] { eq1::<Dna, 64, 2>(8); }
     fn c02_q_eq_sym_amino [3] { eq1::<Amino, 21, 2>(3); }
     fn c02_q_eq_sym_miupac [3] { eq1::<masked::Iupac, 25, 2>(3); }
